@@ -2,8 +2,8 @@
    The file system is symbolic: absolute paths, directories, files (inode numbers with content and mode), symbolic links.
    [good root f]: inode numbers are allocated, no inode is shared between a file below the destination and one outside it,
    and the destination directory exists. *)
-From Coq Require Import List Bool Arith.
-From Verif Require Import C19.Model C19.Proofs.
+From Coq Require Import List Bool Arith Lia.
+From Verif Require Import C19.Model C19.Proofs C19.Proofs2.
 Import ListNotations.
 
 (* For every archive (any entries, names, link targets, in any order) and every file system (any symbolic links already present):
@@ -27,6 +27,30 @@ Theorem C19_good_is_decidable : forall root f, wf_b f && sep_b root f && root_ok
 Proof. exact good_b_sound. Qed.
 Print Assumptions C19_good_is_decidable.
 
+(* ---- the positive half (Proofs2.v). [Inv f]: the tree holds no symbolic link, every bound path's parent is a directory, file inodes
+   are allocated and not shared. [dirs f [] root]: every prefix of the destination is a directory. [plain root e]: a regular file or a
+   directory whose name consists of proper components (no ".", "..", not empty) and is at most 63 deep with the destination.
+   THE ARCHIVE IS REPRODUCED: after a successful extraction, every regular-file entry that no later regular-file entry of the same
+   name overwrites is a file holding that entry's content, every directory entry is a directory, everything that was bound before is
+   still bound, and the invariant holds again *)
+Theorem C19_plain_archive_is_reproduced : forall root dmode fmode pmode, simple root -> forall es f f',
+  Inv f -> dirs f [] root -> Forall (plain root) es -> extract root dmode fmode pmode f es = (f', true) ->
+  persist f f' /\ Inv f' /\
+  (forall pre e post, es = pre ++ e :: post -> etyp e = TReg -> (forall e', In e' post -> ~ (etyp e' = TReg /\ ename e' = ename e)) ->
+     exists i m, look f' (root ++ ename e) = Some (NFile i) /\ nth_error (inodes f') i = Some (payload e, m)) /\
+  (forall e, In e es -> etyp e = TDir -> exists m, look f' (root ++ ename e) = Some (NDir m)).
+Proof. exact extract_reproduces. Qed.
+Print Assumptions C19_plain_archive_is_reproduced.
+(* one regular-file entry: the file is there with the payload (mode fmode(recorded) when new), nothing else changes content *)
+Theorem C19_regular_file_entry_is_written_whole : forall root dmode fmode pmode, simple root -> forall f e n f',
+  Inv f -> dirs f [] root -> simple n -> n <> [] -> length root + length n <= 63 ->
+  ename e = n -> etyp e = TReg -> extract1 root dmode fmode pmode f e = (f', true) ->
+  Inv f' /\ persist f f' /\
+  (exists i m', look f' (root ++ n) = Some (NFile i) /\ nth_error (inodes f') i = Some (payload e, m')) /\
+  (forall q j, q <> root ++ n -> look f q = Some (NFile j) -> nth_error (inodes f') j = nth_error (inodes f) j).
+Proof. exact extract1_reg. Qed.
+Print Assumptions C19_regular_file_entry_is_written_whole.
+
 Module NonVacuous.
   (* names: 2 dst, 3 outside, 4 a, 7 lnk, 9 secret.  /dst, /outside/secret (inode 0, content 0) *)
   Definition f0 : fs := {| tree := [([2], NDir 493); ([3], NDir 493); ([3; 9], NFile 0)]; inodes := [(0, 420)] |}.
@@ -46,4 +70,28 @@ Module NonVacuous.
     extract [2] (fun m => m) (fun m => m) 493 f0 [e [4; 7] TReg false [] 11; e [4] TDir false [] 0; e [4; 9] TLink false [4; 7] 0] =
     ({| tree := [([2], NDir 493); ([3], NDir 493); ([3; 9], NFile 0); ([2; 4], NDir 493); ([2; 4; 7], NFile 1); ([2; 4; 9], NFile 1)]; inodes := [(0, 420); (11, 420)] |}, true).
   Proof. vm_compute. reflexivity. Qed.
+  (* the hypotheses of the positive theorem are met: an empty destination /dst, an archive with nested names, an overwritten file *)
+  Definition g0 : fs := {| tree := [([2], NDir 493)]; inodes := [] |}.
+  Lemma g0_look q : look g0 q = match q with [] => Some (NDir 493) | [2] => Some (NDir 493) | _ => None end.
+  Proof. destruct q as [|[|[|[|c]]] [|y q]]; reflexivity. Qed.
+  Example g0_Inv : Inv g0 /\ dirs g0 [] [2] /\ simple [2].
+  Proof.
+    split; [|split].
+    - split; [|split; [|split]].
+      + intros q a t. rewrite g0_look. destruct q as [|[|[|[|c]]] [|y q]]; discriminate.
+      + intros q x Hq. rewrite g0_look. destruct q as [|[|[|[|c]]] [|y q]]; try discriminate; try congruence. intros _. exists 493. reflexivity.
+      + intros q i. rewrite g0_look. destruct q as [|[|[|[|c]]] [|y q]]; discriminate.
+      + intros q q' i. rewrite g0_look. destruct q as [|[|[|[|c]]] [|y q]]; discriminate.
+    - intros k Hk. cbn in Hk. assert (k = 1) by lia. subst. exists 493. reflexivity.
+    - repeat constructor.
+  Qed.
+  Definition arch := [e [4; 7] TReg false [] 11; e [5] TDir false [] 0; e [4; 7] TReg false [] 12; e [5; 9] TReg false [] 13].
+  Example arch_plain_and_extracted : Forall (plain [2]) arch /\
+    extract [2] (fun m => m) (fun m => m) 493 g0 arch =
+    ({| tree := [([2], NDir 493); ([2; 4], NDir 493); ([2; 4; 7], NFile 0); ([2; 5], NDir 420); ([2; 5; 9], NFile 1)]; inodes := [(12, 420); (13, 420)] |}, true).
+  Proof.
+    split; [|vm_compute; reflexivity].
+    repeat (apply Forall_cons || apply Forall_nil);
+      (unfold plain; cbn; split; [first [left; reflexivity|right; reflexivity]|split; [repeat constructor; lia|split; [discriminate|lia]]]).
+  Qed.
 End NonVacuous.
